@@ -4,8 +4,8 @@
   `tzical._parse_rfc` is TRANSLATED from /repo's tz/tz.py on every run (harness/translate_rfc.py →
   Generated/TzRfcKernels.lean: the unfolding `while` loop, the body of the line loop, the whole function) and proved equal
   to the hand model (`Model/ICal.lean`: `unfold`, `stepLineW` = `stepCore` after the split into NAME;parms:value,
-  `parseRfcW`).  The recurrence library is a PARAMETER (`lib : RRuleLib`): what `rrulestr(...)` of a component's lines
-  raises or, of the rule set it returns, the `_interval`s of its rules — the only thing `_parse_rfc` reads from it.
+  `parseRfcW`).  The recurrence library is a PARAMETER (`lib : RRuleLib`): what `rrulestr(...)` of a component's lines raises, or that it returns
+  (nothing of the returned rule set is read by `_parse_rfc`).
   "Which texts rrulestr rejects" is C13 (`errors_are_ValueError`), which is the hypothesis `LibVE`.
 
   * `gen_eq_model_parse_rfc_line`, `gen_unfold_terminates`, `gen_eq_model_parse_rfc` — the translation equals the model
@@ -15,8 +15,8 @@
     without TZID / without a component / with a component still open), `malformed_component_end` (END:<component>
     without DTSTART / TZOFFSETFROM / TZOFFSETTO), `malformed_mismatched_end`, `malformed_unknown_component` (also a nested
     VTIMEZONE), `malformed_unknown_property_in_component`, `malformed_unknown_property_in_zone`,
-    `malformed_property_parameter`, `malformed_bad_rrule` (rrulestr rejects the lines, or a rule's interval is below 1:
-    fix D-C17-bad-rrule), `malformed_no_colon`;
+    `malformed_property_parameter`, `malformed_bad_rrule` (rrulestr rejects the lines — since fix D-C01-interval also a rule
+    whose INTERVAL is below 1, which used to load and hang every lookup), `malformed_no_colon`;
   * state does not leak: `zone_state_does_not_leak` (BEGIN:VTIMEZONE clears TZID and the component list, so
     `malformed_zone_end` applies to each zone on its own), `component_state_does_not_leak` (BEGIN:STANDARD|DAYLIGHT clears
     DTSTART-seen / both offsets / the recurrence lines / TZNAME);
@@ -135,26 +135,19 @@ theorem malformed_property_parameter (lib : RRuleLib) (st : PState) (line value 
       simp [stepCore, hin, hc, compProp, hpe, lit_BEGIN, lit_END, lit_DTSTART, lit_RRULE, lit_RDATE, lit_EXRULE, lit_EXDATE,
         lit_TZOFFSETFROM, lit_TZOFFSETTO, lit_TZNAME]
 
-/-- the component's recurrence lines are rejected by `rrulestr`, or one of its rules has an interval below 1
-    (`RRULE:FREQ=DAILY;INTERVAL=0` made every later lookup spin forever before fix D-C17-bad-rrule) -/
+/-- the component's recurrence lines are rejected by `rrulestr`: whatever it raises is what `_parse_rfc` raises, and nothing is
+    registered.  (`RRULE:FREQ=DAILY;INTERVAL=0` used to be ACCEPTED by `rrulestr`, the zone loaded and every later lookup spun
+    forever — review 3b F4; since fix D-C01-interval `rrule.__init__` raises ValueError for an interval below 1, so such a line
+    falls under this theorem; the oracle loads every such definition under an alarm.) -/
 theorem malformed_bad_rrule (lib : RRuleLib) (st : PState) (line value : List Char) (parms : List (List Char))
     (hin : st.invtz = true) (hv : value ≠ lit "VTIMEZONE") (hc : st.comptype = some value)
     (hd : st.founddtstart = true) (f t : Int) (hf : st.tzoffsetfrom = some f) (ht : st.tzoffsetto = some t)
-    (hr : st.rrulelines ≠ []) :
-    (∀ e, lib st.rrulelines = .error e → stepCore lib st line (lit "END") parms value = .error e) ∧
-    (∀ ivs, lib st.rrulelines = .ok ivs → (∃ i ∈ ivs, i < 1) →
-      stepCore lib st line (lit "END") parms value = .error .ValueError) := by
+    (hr : st.rrulelines ≠ []) (e : PyErr) (he : lib st.rrulelines = .error e) :
+    stepCore lib st line (lit "END") parms value = .error e := by
   have e1 : (lit "END" == lit "BEGIN") = false := by decide
   have e2 : (value == lit "VTIMEZONE") = false := by simpa using hv
   have hre : st.rrulelines.isEmpty = false := by cases h : st.rrulelines <;> simp_all
-  constructor
-  · intro e he
-    simp [stepCore, hin, e1, e2, hc, closeComp, hd, hf, ht, compRules, hre, he]
-  · intro ivs he ⟨i, hi, hlt⟩
-    have hall : (ivs.all fun i => decide (1 ≤ i)) = false := by
-      simp only [List.all_eq_false, decide_eq_true_eq]
-      exact ⟨i, hi, by omega⟩
-    simp [stepCore, hin, e1, e2, hc, closeComp, hd, hf, ht, compRules, hre, he, hall]
+  simp [stepCore, hin, e1, e2, hc, closeComp, hd, hf, ht, compRules, hre, he]
 
 /-- per-zone state does not leak: BEGIN:VTIMEZONE forgets the TZID and the components of whatever came before, so the
     mandatory-field checks of `malformed_zone_end` apply to every zone of a multi-zone text on its own -/
@@ -189,13 +182,13 @@ example : OtherCompProp (lit "RRULE") := Or.inl rfl
 
 /-! non-vacuity: whole texts through the TRANSLATED function -/
 def okLib : RRuleLib := fun _ => .ok [1]
-def zeroLib : RRuleLib := fun _ => .ok [0]
+def rejectLib : RRuleLib := fun _ => .error .ValueError
 def goodText : List Char := lit
   "BEGIN:VTIMEZONE\r\nTZID:X\r\nBEGIN:STANDARD\r\nDTSTART:19701025T030000\r\nRRULE:FREQ=YEARLY;BYMONTH=10;BYDAY=-1SU\r\nTZOFFSETFROM:+0200\r\nTZOFFSETTO:+0100\r\nEND:STANDARD\r\nEND:VTIMEZONE\r\n"
 example : (Gen.tzical_parseRfc okLib goodText).map (fun st => st.vtz.map (fun v => (v.tzid, v.comps.length))) =
     .ok [(lit "X", 1)] := by decide +kernel
-/-- the same text with a rule of interval 0 -/
-example : (Gen.tzical_parseRfc zeroLib goodText).map (·.vtz) = .error .ValueError := by decide +kernel
+/-- the same text when `rrulestr` rejects the component's lines -/
+example : (Gen.tzical_parseRfc rejectLib goodText).map (·.vtz) = .error .ValueError := by decide +kernel
 example : LibVE okLib := by intro l e h; cases h
 example : (Gen.tzical_parseRfc okLib (lit "BEGIN:VTIMEZONE\nBEGIN:STANDARD\nRRULE:FREQ=YEARLY\nTZOFFSETFROM:+0200\nTZOFFSETTO:+0100\nEND:STANDARD\nTZID:X\nEND:VTIMEZONE\n")).map (·.vtz)
     = .error .ValueError := by decide +kernel
